@@ -259,7 +259,16 @@ def _run_shard(args):
     while len(outs) < len(lines):
         data = ('\n'.join(lines[len(outs):]) + '\n').encode()
         e = dict(os.environ); e.update(env)
-        p = subprocess.run(cmd, input=data, stdout=subprocess.PIPE, stderr=subprocess.PIPE, env=e)
+        try:
+            p = subprocess.run(cmd, input=data, stdout=subprocess.PIPE, stderr=subprocess.PIPE, env=e, timeout=3600)
+        except subprocess.TimeoutExpired as te:      # backstop; the driver itself ends a case after DRV_CASE_TIMEOUT seconds
+            ls = (te.stdout or b'').decode('utf-8', 'replace').splitlines()
+            outs.extend(ls[:len(lines) - len(outs)])
+            if len(outs) < len(lines): outs.append('CRASH:timeout(driver did not finish)')
+            restarts += 1
+            if restarts > 40:
+                outs.extend(['CRASH-SKIPPED'] * (len(lines) - len(outs))); break
+            continue
         ls = p.stdout.decode('utf-8', 'replace').splitlines()
         need = len(lines) - len(outs)
         if p.returncode == 0 and len(ls) >= need:
@@ -271,6 +280,10 @@ def _run_shard(args):
             ls[-1] += ' ' + tail
         outs.extend(ls[:need])
         restarts += 1
+        if 'sig14' in ls[-1]:
+            hangs = sum(1 for o in outs if 'CRASH:sig14' in o)
+            if hangs >= 3:      # three cases of this shard did not return: enough to report, do not wait for every other one
+                outs.extend(['CRASH-SKIPPED(after three cases that did not return)'] * (len(lines) - len(outs))); break
         if restarts > 40:
             outs.extend(['CRASH-SKIPPED'] * (len(lines) - len(outs))); break
     return outs
@@ -284,9 +297,10 @@ def run_both(lib, snap, lines, shards=NCPU, env=None, wrapper=None):
     k = max(1, min(shards, n // 2000 + 1))
     chunks = [lines[i * n // k:(i + 1) * n // k] for i in range(k)]
     ccmd = [lib.drv()]
-    cenv = {'DRV_LINEBUF': '1', 'ASAN_OPTIONS': 'detect_leaks=1:abort_on_error=0:handle_abort=0', 'UBSAN_OPTIONS': 'print_stacktrace=1'} if lib.san else {}
+    cenv = {'DRV_LINEBUF': '1', 'DRV_CASE_TIMEOUT': '20', 'ASAN_OPTIONS': 'detect_leaks=1:abort_on_error=0:handle_abort=0', 'UBSAN_OPTIONS': 'print_stacktrace=1'} if lib.san else {}
     if env: cenv = dict(cenv, **env)
-    if wrapper: ccmd = list(wrapper) + ccmd
+    if wrapper:
+        ccmd = list(wrapper) + ccmd; cenv = dict(cenv, DRV_CASE_TIMEOUT='60')
     mcmd = [model_drv(), snap.table_file] + lib.model_args()
     jobs = [(ccmd, c, cenv) for c in chunks] + [(mcmd, c, {}) for c in chunks]
     with ThreadPoolExecutor(max_workers=NCPU) as ex:
